@@ -5,6 +5,11 @@ ROOT = os.path.dirname(os.path.dirname(os.path.abspath(__file__)))
 
 # id -> (technique, level text, level note, design ref)
 CLAIMED = {
+ "C10": ("integer-width / interval reasoning on every ssa.Convert between numeric types in package val and node/value.go: source range vs destination range, dominating comparison guards compared against the destination type's limits, integrality guard for float→integer, strconv bitSize; plus return-shape rule on val.Conv and a failed-result-used (inverted error test) rule",
+         "Decides, for all values at once, that no numeric conversion in the conversion front end can change the number: each narrowing, sign-changing or float→integer conversion is dominated by guards that keep the operand inside the destination type (with the right constants) and, for floats, integral. Any unguarded conversion or wrong bound is reported with the function and types. Known findings: integers beyond 2^53 into decimal64. Not decided: which strings parse, union member choice, enum/bits/identityref lookups.",
+         "Interval reasoning looks only at guards on the dominator chain of the same function (a guard in a caller does not discharge a callee conversion); one conversion is triaged by a domain invariant (UInt32 held in uint).",
+         "DESIGN.md §2 C10"),
+
  "C20": ("effect analysis: stores to package-level variables (direct, or through values that flowed out of one: forward value flow with dynamic-type filtering, ≤8 call edges, ≤1 pointer hop) in everything reachable from the load and request entry points; stores to package-meta struct fields reachable from the request API; who-may-write rule for the lazily compiled constraint order",
          "The library has no synchronisation at all, so race freedom can only come from the absence of shared writes. The check decides exactly that absence for the analysed code: no function reachable from loading or using a module writes repository package-level state (sync/atomic excepted) and no function reachable from the request API writes a field of a compiled-schema object; the per-request cache is written only on per-request objects. It does not run schedules and says nothing about user-supplied nodes.",
          "Trusts the VTA call graph; the value-flow is bounded (8 call edges, one pointer hop from the variable) and type-filtered; two sites are triaged by a typestate argument (anyType is complete at init) that a separate rule re-checks on every run.",
